@@ -5,7 +5,7 @@ COMMON = [
     "runtime monitoring: the verdict covers only the executions produced by this run's workloads",
 ]
 
-HOOK_COMMITS = []
+HOOK_COMMITS = ["3a5cfdb", "3d9cea6"]
 
 NOT_APPLICABLE = {}
 
@@ -33,5 +33,13 @@ PROPS = {
         "level_note": "trusted: R's lexer for N(t), the stable-spelling and adjacency predicates. One known deviation (prefix-key-respelling, D12) is matched by an exact signature: difference confined to re-spelled key-path regions that decode to the same keys",
         "rule": "cases: corpus, rendered documents with unique comments/whitespace in every trivia slot, the same with LF->CRLF on random line ends / BOM / dropped final newline, mutation survivors. distinct = text hash; non-trivial = valid text with >= 2 statements on which exact equality with N(t) was demanded",
         "assumptions": COMMON + ["exact equality is demanded only when keys sharing a dotted prefix are adjacent (the property's own precondition), decided by R"],
+    },
+    "C04": {
+        "claimed": True,
+        "technique": "panic/abort/stack/hang monitors over hostile byte workloads in three build profiles, invariant hook H1 at every from_utf8_unchecked site; thorough adds AddressSanitizer, Miri and callgrind instruction-count scaling",
+        "level_text": "hostile byte strings (floods, truncations, heavy mutations, invalid UTF-8 of every class, extreme scalars, byte-class sweep) are pushed through every entry point and every follow-up use of the result under a panic monitor, a process-death monitor with in-flight attribution, hook H1 validating the bytes at every unchecked-UTF-8 site in the release build, and a work-screening monitor; builds: release+assertions, plain release, debug",
+        "level_note": "trusted: the monitors themselves; a clean run means no panic/abort/invalid-UTF-8 event was observed on these executions, not memory safety in general (ASan/Miri in the thorough tier narrow that gap for the reached paths)",
+        "rule": "cases: corpus, slot x byte-class sweep (incl. invalid UTF-8 classes), corpus truncations, floods of one token up to 8 KiB, extreme numbers/dates, 4-30 stacked mutations, light mutations, rendered documents, random bytes, single-value/key/date-time fragments; each input is one evaluation driving ~20 entry points and their follow-ups. distinct = content hash of the input; every hostile input counts as non-trivial",
+        "assumptions": COMMON + ["wall-clock is only used for screening, never as a verdict; bounded work is judged by deterministic instruction counts (callgrind) in the thorough tier"],
     },
 }
